@@ -22,7 +22,8 @@ Section GlobalsProofs.
 
   (* thread t is running program prog correctly so far (prog: ANY steps) *)
   Definition good (prog : list step) (t : thread) : Prop :=
-    t_panicked t = false /\ t_reads t ++ expected_reads_from (t_gen t) (t_todo t) = expected_reads prog.
+    t_panicked t = false /\ forallb closure_safe (t_todo t) = true /\
+    t_reads t ++ expected_reads_from (t_gen t) (t_todo t) = expected_reads prog.
 
   Lemma cell_eqb_eq a b : cell_eqb a b = true -> a = b.
   Proof. destruct a, b; cbn; intro H; try discriminate; reflexivity. Qed.
@@ -41,7 +42,7 @@ Section GlobalsProofs.
 
   (* one atomic step, whichever it is and however many suppress locks the thread holds: the state stays good, the
      step does not panic, and what it reads is the constant *)
-  Lemma gstep_inv g held s : GInv g ->
+  Lemma gstep_inv g held s : GInv g -> closure_safe s = true ->
     GInv (fst (fst (gstep g held s))) /\
     match snd (fst (gstep g held s)) with
     | OPanic => False
@@ -49,7 +50,7 @@ Section GlobalsProofs.
     | ONone => match s with SGetOrInit _ | SReadEnv => False | _ => True end
     end.
   Proof.
-    intros [Hpo Hcells]. destruct s; cbn [Globals.gstep]; try rewrite Hpo.
+    intros [Hpo Hcells] Hsafe. destruct s; cbn [closure_safe] in Hsafe; try discriminate Hsafe; cbn [Globals.gstep]; try rewrite Hpo.
     - (* SLogEntry *) destruct (g_log g) as [[es [|n]]|]; cbn [fst snd]; (split; [split; [reflexivity || exact Hpo | exact Hcells] | exact I]).
     - (* SLogEnabled *) cbn [fst snd]. split; [split; assumption | exact I].
     - (* SSuppressInc *) destruct (g_log g) as [[es n]|]; cbn [fst snd]; (split; [split; [reflexivity || exact Hpo | exact Hcells] | exact I]).
@@ -73,12 +74,13 @@ Section GlobalsProofs.
   Lemma tstep_good g t prog g' t' :
     GInv g -> good prog t -> tstep g t = (g', t') -> GInv g' /\ good prog t'.
   Proof.
-    intros HG [Hpan Hreads] Hstep.
+    intros HG [Hpan [Hsafe Hreads]] Hstep.
     unfold Globals.tstep in Hstep. rewrite Hpan in Hstep.
     destruct (t_todo t) as [|s rest] eqn:Etodo.
-    { injection Hstep as <- <-. split; [exact HG|]. split; [exact Hpan|]. rewrite Etodo. exact Hreads. }
+    { injection Hstep as <- <-. split; [exact HG|]. split; [exact Hpan|]. rewrite Etodo. split; [reflexivity | exact Hreads]. }
+    cbn [forallb] in Hsafe. apply andb_true_iff in Hsafe as [Hs1 Hsafe].
     assert (s = SGenName \/ s <> SGenName) as [->|Hs] by (destruct s; (left; reflexivity) || (right; discriminate)).
-    { injection Hstep as <- <-. split; [exact HG|]. split; [reflexivity|]. cbn [t_reads t_todo t_gen].
+    { injection Hstep as <- <-. split; [exact HG|]. split; [reflexivity|]. cbn [t_reads t_todo t_gen]. split; [exact Hsafe|].
       cbn [Globals.expected_reads_from] in Hreads. rewrite <- app_assoc. exact Hreads. }
     assert (tstep_rest : match gstep g (t_held t) s with
              | (g1, ONone, h) => (g1, mkT rest (t_reads t) h (t_gen t) false)
@@ -86,12 +88,12 @@ Section GlobalsProofs.
              | (g1, OPanic, h) => (g1, mkT [] (t_reads t) h (t_gen t) true)
              end = (g', t')) by (destruct s; try exact Hstep; congruence).
     clear Hstep.
-    pose proof (gstep_inv g (t_held t) s HG) as [HG' Hout].
+    pose proof (gstep_inv g (t_held t) s HG Hs1) as [HG' Hout].
     destruct (gstep g (t_held t) s) as [[g1 o] h]. cbn [fst snd] in HG', Hout.
     destruct o as [|v|]; [| |destruct Hout].
-    - injection tstep_rest as <- <-. split; [exact HG'|]. split; [reflexivity|]. cbn [t_reads t_todo t_gen].
-      destruct s; try (exfalso; exact Hout); try exact Hreads. congruence.
-    - injection tstep_rest as <- <-. split; [exact HG'|]. split; [reflexivity|]. cbn [t_reads t_todo t_gen].
+    - injection tstep_rest as <- <-. split; [exact HG'|]. split; [reflexivity|]. cbn [t_reads t_todo t_gen]. split; [exact Hsafe|].
+      destruct s; try (exfalso; exact Hout); try exact Hreads; try discriminate Hs1. congruence.
+    - injection tstep_rest as <- <-. split; [exact HG'|]. split; [reflexivity|]. cbn [t_reads t_todo t_gen]. split; [exact Hsafe|].
       destruct s; try (exfalso; exact Hout); subst v; cbn [Globals.expected_reads_from] in Hreads; rewrite <- app_assoc; exact Hreads.
   Qed.
 
@@ -114,35 +116,39 @@ Section GlobalsProofs.
     - rewrite nth_error_upd_other in Hu by exact Hne. eapply HG; eauto.
   Qed.
 
-  Lemma spawn_good p : good p (spawn p).
-  Proof. unfold good, spawn. cbn [t_panicked t_todo t_reads t_gen]. split; reflexivity. Qed.
+  (* the standing assumption: no entry closure of any thread panics *)
+  Definition safe_progs (progs : list (list step)) : Prop := Forall (fun p => forallb closure_safe p = true) progs.
 
-  Lemma spawn_all_good progs : all_good progs (map spawn progs).
+  Lemma spawn_good p : forallb closure_safe p = true -> good p (spawn p).
+  Proof. intro H. unfold good, spawn. cbn [t_panicked t_todo t_reads t_gen]. split; [reflexivity | split; [exact H | reflexivity]]. Qed.
+
+  Lemma spawn_all_good progs : safe_progs progs -> all_good progs (map spawn progs).
   Proof.
-    split; [rewrite map_length; reflexivity|].
+    intro H. split; [rewrite map_length; reflexivity|].
     intros i p t Hp Ht. rewrite nth_error_map, Hp in Ht. cbn in Ht. injection Ht as <-. apply spawn_good.
+    unfold safe_progs in H. rewrite Forall_forall in H. apply H. eapply nth_error_In; eauto.
   Qed.
 
   (* Every thread that runs to completion has read exactly the constants, whatever the other threads do -- compile,
      start, restart or finish the debug log -- and whatever ran before (g is any state satisfying GInv). *)
   Theorem reads_schedule_independent g progs sched :
-    GInv g ->
+    GInv g -> safe_progs progs ->
     forall i p t, nth_error progs i = Some p -> nth_error (snd (run g (map spawn progs) sched)) i = Some t ->
     finished t = true -> t_reads t = expected_reads p.
   Proof.
-    intros HG i p t Hp Ht Hfin.
-    destruct (run_good sched g (map spawn progs) progs HG (spawn_all_good progs)) as [_ [_ Hgood]].
-    destruct (Hgood i p t Hp Ht) as [_ Hr].
+    intros HG Hs i p t Hp Ht Hfin.
+    destruct (run_good sched g (map spawn progs) progs HG (spawn_all_good progs Hs)) as [_ [_ Hgood]].
+    destruct (Hgood i p t Hp Ht) as [_ [_ Hr]].
     unfold finished in Hfin. destruct (t_todo t); [|discriminate]. cbn [Globals.expected_reads_from] in Hr. rewrite app_nil_r in Hr. exact Hr.
   Qed.
 
   (* no step can poison the lock or panic: every thread that was scheduled often enough finishes *)
   Theorem never_panics g progs sched :
-    GInv g ->
+    GInv g -> safe_progs progs ->
     forall i t, nth_error (snd (run g (map spawn progs) sched)) i = Some t -> t_panicked t = false.
   Proof.
-    intros HG i t Ht.
-    destruct (run_good sched g (map spawn progs) progs HG (spawn_all_good progs)) as [_ [Hlen Hgood]].
+    intros HG Hs i t Ht.
+    destruct (run_good sched g (map spawn progs) progs HG (spawn_all_good progs Hs)) as [_ [Hlen Hgood]].
     destruct (nth_error progs i) as [p|] eqn:Ep.
     - destruct (Hgood i p t Ep Ht) as [H _]. exact H.
     - apply nth_error_None in Ep. assert (i < length (snd (run g (map spawn progs) sched))) by (apply nth_error_Some; congruence). lia.
@@ -150,35 +156,43 @@ Section GlobalsProofs.
 
   (* any state reached by any schedule of any programs (complete or cut short) is again a good start *)
   Theorem history_preserves_GInv g progs sched :
-    GInv g -> GInv (fst (run g (map spawn progs) sched)).
+    GInv g -> safe_progs progs -> GInv (fst (run g (map spawn progs) sched)).
   Proof.
-    intros HG. destruct (run_good sched g (map spawn progs) progs HG (spawn_all_good progs)) as [H _]. exact H.
+    intros HG Hs. destruct (run_good sched g (map spawn progs) progs HG (spawn_all_good progs Hs)) as [H _]. exact H.
   Qed.
 
   Theorem never_poisons g progs sched :
-    GInv g -> g_poisoned (fst (run g (map spawn progs) sched)) = false.
-  Proof. intro HG. destruct (history_preserves_GInv g progs sched HG) as [H _]. exact H. Qed.
+    GInv g -> safe_progs progs -> g_poisoned (fst (run g (map spawn progs) sched)) = false.
+  Proof. intros HG Hs. destruct (history_preserves_GInv g progs sched HG Hs) as [H _]. exact H. Qed.
 
   Lemma GInv_init : GInv g_init.
   Proof. split; [reflexivity|]. intros c v H. discriminate H. Qed.
 
+  Lemma safe_one p : forallb closure_safe p = true -> safe_progs [p].
+  Proof. intro H. constructor; [exact H | constructor]. Qed.
+
+  Lemma safe_nth progs i p : safe_progs progs -> nth_error progs i = Some p -> forallb closure_safe p = true.
+  Proof. intros H Hp. unfold safe_progs in H. rewrite Forall_forall in H. apply H. eapply nth_error_In; eauto. Qed.
+
   Theorem interleaving_independent progs sched i p t :
+    safe_progs progs ->
     nth_error progs i = Some p -> nth_error (snd (run g_init (map spawn progs) sched)) i = Some t -> finished t = true ->
     forall t1, nth_error (snd (run g_init [spawn p] (repeat 0 (length p)))) 0 = Some t1 -> finished t1 = true ->
     t_reads t = t_reads t1.
   Proof.
-    intros Hp Ht Hf t1 Ht1 Hf1.
-    rewrite (reads_schedule_independent g_init progs sched GInv_init i p t Hp Ht Hf).
-    symmetry. apply (reads_schedule_independent g_init [p] (repeat 0 (length p)) GInv_init 0 p t1 eq_refl Ht1 Hf1).
+    intros Hs Hp Ht Hf t1 Ht1 Hf1.
+    rewrite (reads_schedule_independent g_init progs sched GInv_init Hs i p t Hp Ht Hf).
+    symmetry. apply (reads_schedule_independent g_init [p] (repeat 0 (length p)) GInv_init (safe_one p (safe_nth progs i p Hs Hp)) 0 p t1 eq_refl Ht1 Hf1).
   Qed.
 
   (* the thread really finishes when it runs alone for length p steps: the conclusion above is not vacuous *)
-  Lemma run_alone_finishes : forall p g t, GInv g -> t_panicked t = false -> t_todo t = p ->
+  Lemma run_alone_finishes : forall p g t, GInv g -> t_panicked t = false -> t_todo t = p -> forallb closure_safe p = true ->
     exists t1, nth_error (snd (run g [t] (repeat 0 (length p)))) 0 = Some t1 /\ finished t1 = true.
   Proof.
-    induction p as [|s p IH]; intros g t HG Hpan Htodo.
+    induction p as [|s p IH]; intros g t HG Hpan Htodo Hsafe.
     - exists t. cbn. split; [reflexivity|]. unfold finished. rewrite Htodo, Hpan. reflexivity.
     - cbn [length repeat Globals.run nth_error].
+      cbn [forallb] in Hsafe. apply andb_true_iff in Hsafe as [Hs1 Hsafe].
       destruct (tstep g t) as [g' t'] eqn:Es. cbn [upd].
       assert (GInv g' /\ t_panicked t' = false /\ t_todo t' = p) as [HG' [Hpan' Htodo']].
       { unfold Globals.tstep in Es. rewrite Hpan, Htodo in Es.
@@ -189,28 +203,32 @@ Section GlobalsProofs.
              | (g1, ORead v, h) => (g1, mkT p (t_reads t ++ [v]) h (t_gen t) false)
              | (g1, OPanic, h) => (g1, mkT [] (t_reads t) h (t_gen t) true)
              end = (g', t')) by (destruct s; try exact Es; congruence).
-        pose proof (gstep_inv g (t_held t) s HG) as [HG1 Hout].
+        pose proof (gstep_inv g (t_held t) s HG Hs1) as [HG1 Hout].
         destruct (gstep g (t_held t) s) as [[g1 o] h]. cbn [fst snd] in HG1, Hout.
         destruct o; [| |destruct Hout]; injection Es' as <- <-; auto. }
       apply IH; assumption.
   Qed.
 
-  Theorem alone_finishes p : exists t1,
+  Theorem alone_finishes p : forallb closure_safe p = true -> exists t1,
     nth_error (snd (run g_init [spawn p] (repeat 0 (length p)))) 0 = Some t1 /\ finished t1 = true.
-  Proof. apply run_alone_finishes; [exact GInv_init | reflexivity | reflexivity]. Qed.
+  Proof. intro H. apply run_alone_finishes; [exact GInv_init | reflexivity | reflexivity | exact H]. Qed.
 
   Theorem history_independent hist hsched p sched t :
+    safe_progs hist -> forallb closure_safe p = true ->
     let g := fst (run g_init (map spawn hist) hsched) in
     nth_error (snd (run g [spawn p] sched)) 0 = Some t -> finished t = true ->
     t_reads t = expected_reads p.
   Proof.
-    intros g Ht Hf.
-    apply (reads_schedule_independent g [p] sched (history_preserves_GInv g_init hist hsched GInv_init) 0 p t eq_refl Ht Hf).
+    intros Hh Hp g Ht Hf.
+    apply (reads_schedule_independent g [p] sched (history_preserves_GInv g_init hist hsched GInv_init Hh) (safe_one p Hp) 0 p t eq_refl Ht Hf).
   Qed.
 
   (* a history: batches of concurrent threads (any steps, any schedule, complete or cut short), with calls of the
      debug API between the batches *)
   Inductive hitem := HCompiles (progs : list (list step)) (sched : list nat) | HApi (s : step).
+
+  Definition hitem_safe (h : hitem) : Prop :=
+    match h with HCompiles progs _ => safe_progs progs | HApi s => closure_safe s = true end.
 
   Definition hstep (g : gstate) (h : hitem) : gstate :=
     match h with
@@ -218,42 +236,46 @@ Section GlobalsProofs.
     | HApi s => fst (fst (gstep g 0 s))
     end.
 
-  Lemma history_GInv hist : forall g, GInv g -> GInv (fold_left hstep hist g).
+  Lemma history_GInv hist : Forall hitem_safe hist -> forall g, GInv g -> GInv (fold_left hstep hist g).
   Proof.
-    induction hist as [|h hist IH]; intros g HG; [exact HG|].
-    cbn [fold_left]. apply IH.
-    destruct h as [progs sched|s]; cbn [hstep].
+    induction hist as [|h hist IH]; intros Hs g HG; [exact HG|].
+    inversion Hs as [|? ? Hh Hrest]; subst.
+    cbn [fold_left]. apply IH; [exact Hrest|].
+    destruct h as [progs sched|s]; cbn [hstep hitem_safe] in *.
     - apply history_preserves_GInv; assumption.
     - apply gstep_inv; assumption.
   Qed.
 
   Theorem history_with_api_independent hist p sched t :
+    Forall hitem_safe hist -> forallb closure_safe p = true ->
     let g := fold_left hstep hist g_init in
     nth_error (snd (run g [spawn p] sched)) 0 = Some t -> finished t = true ->
     t_reads t = expected_reads p /\ t_panicked t = false.
   Proof.
-    intros g Ht Hf.
-    pose proof (history_GInv hist g_init GInv_init) as HG.
+    intros Hh Hp g Ht Hf.
+    pose proof (history_GInv hist Hh g_init GInv_init) as HG.
     split.
-    - apply (reads_schedule_independent g [p] sched HG 0 p t eq_refl Ht Hf).
-    - apply (never_panics g [p] sched HG 0 t Ht).
+    - apply (reads_schedule_independent g [p] sched HG (safe_one p Hp) 0 p t eq_refl Ht Hf).
+    - apply (never_panics g [p] sched HG (safe_one p Hp) 0 t Ht).
   Qed.
 
   (* the debug API used CONCURRENTLY with compilations (was false: F10j): after any history, threads that compile and
      threads that start / restart / finish the log in any interleaving -- nobody panics, the lock is not poisoned, and
      every thread that completes has read the constants *)
   Theorem concurrent_api_independent hist progs sched :
+    Forall hitem_safe hist -> safe_progs progs ->
     let g := fold_left hstep hist g_init in
     g_poisoned (fst (run g (map spawn progs) sched)) = false /\
     forall i p t, nth_error progs i = Some p -> nth_error (snd (run g (map spawn progs) sched)) i = Some t ->
       t_panicked t = false /\ (finished t = true -> t_reads t = expected_reads p).
   Proof.
-    intro g. pose proof (history_GInv hist g_init GInv_init) as HG. split.
-    - apply never_poisons. exact HG.
+    intros Hh Hs g. pose proof (history_GInv hist Hh g_init GInv_init) as HG. split.
+    - apply never_poisons; assumption.
     - intros i p t Hp Ht. split.
-      + apply (never_panics g progs sched HG i t Ht).
-      + intro Hf. apply (reads_schedule_independent g progs sched HG i p t Hp Ht Hf).
+      + apply (never_panics g progs sched HG Hs i t Ht).
+      + intro Hf. apply (reads_schedule_independent g progs sched HG Hs i p t Hp Ht Hf).
   Qed.
+
   (* what a call whose only reads are generated names reads: 0, 1, ..., k-1 -- whatever else it does in between *)
   Definition reads_nothing_else (s : step) : bool := match s with SGetOrInit _ | SReadEnv => false | _ => true end.
   Definition is_gen (s : step) : bool := match s with SGenName => true | _ => false end.
@@ -269,13 +291,41 @@ Section GlobalsProofs.
 
   (* generated-name state per call is a function of the call alone: after any history, among any threads, under any schedule *)
   Theorem generated_names_per_call hist progs sched i p t :
+    Forall hitem_safe hist -> safe_progs progs ->
     let g := fold_left hstep hist g_init in
     forallb reads_nothing_else p = true ->
     nth_error progs i = Some p -> nth_error (snd (run g (map spawn progs) sched)) i = Some t -> finished t = true ->
     t_reads t = map N.of_nat (seq 0 (length (filter is_gen p))).
   Proof.
-    intros g Hp Hi Ht Hf.
-    destruct (concurrent_api_independent hist progs sched) as [_ H]. destruct (H i p t Hi Ht) as [_ Hr].
+    intros Hh Hs g Hp Hi Ht Hf.
+    destruct (concurrent_api_independent hist progs sched Hh Hs) as [_ H]. destruct (H i p t Hi Ht) as [_ Hr].
     rewrite (Hr Hf). apply expected_names_from. exact Hp.
   Qed.
+
+  (* ---- an entry closure that panics (the assumption closure_safe dropped) ---- *)
+
+  (* while NO debug log is active -- the library used without debug::log_start, e.g. every ordinary `compile` -- the closures
+     are never called: whatever they would do, nothing is poisoned and nobody panics *)
+  Theorem no_log_no_closure_call g held :
+    g_poisoned g = false -> g_log g = None -> gstep g held SLogEntryPanics = (g, ONone, held).
+  Proof. intros Hp Hl. cbn [Globals.gstep]. rewrite Hp, Hl. reflexivity. Qed.
+
+  (* ... and the same while the log is suppressed (std is being loaded) *)
+  Theorem suppressed_no_closure_call g held es n :
+    g_poisoned g = false -> g_log g = Some (es, S n) -> gstep g held SLogEntryPanics = (g, ONone, held).
+  Proof. intros Hp Hl. cbn [Globals.gstep]. rewrite Hp, Hl. reflexivity. Qed.
+
+  (* with a log active one panicking closure poisons the lock for good: the thread panics, and so does every later
+     log call of every thread -- also after log_start, which takes the guard out of the poisoned lock but cannot clear it *)
+  Theorem panicking_closure_poisons_for_good :
+    exists progs sched,
+      let r := run g_init (map spawn progs) sched in
+      g_poisoned (fst r) = true
+      /\ option_map t_panicked (nth_error (snd r) 1) = Some true        (* the call whose closure panicked *)
+      /\ option_map t_panicked (nth_error (snd r) 2) = Some true        (* an innocent later compilation *)
+      /\ forallb compile_step (nth 2 progs []) = true /\ forallb closure_safe (nth 2 progs []) = true.
+  Proof.
+    exists [[SLogStart; SLogStart]; [SLogEntryPanics]; [SLogEnabled; SLogEntry 0%N]], [0; 1; 0; 2; 2]. vm_compute. auto.
+  Qed.
 End GlobalsProofs.
+
